@@ -5,7 +5,9 @@ precedence-climbing parser Meaning for the documented grammar) + SymDimMC.tla.  
   1. checks the precedence/associativity lemmas on explicit strings (SymDimMC_shapes.cfg);
   2. enumerates EVERY expression tree of depth <= 2 over the operators ir.SymbolicDim overloads
      (2 symbols, constants {1,2,3}; 406 125 trees), over the rounding operators with negated leaves
-     (SymDimMC_signs.cfg; negative non-integer operands) and, for the grammar, over + - * / // % ** unary -,
+     (SymDimMC_signs.cfg; negative non-integer operands), a targeted family of depth 3 - floor ceil trunc neg // %
+     over (a-b)/k, (a-b)/c, k/a-b, i.e. operands whose sign the symbols' positivity does not settle and that are
+     negative and non-integral under some bindings (SymDimMC_mixed.cfg, every tree replayed) - and, for the grammar, over + - * / // % ** unary -,
      floor sqrt min max (SymDimMC_gram.cfg), checks RoundTripTree / DesugarOK / NormalForm / Integral on
      each of them under every binding in {1..4}^2 (RoundTripValue / PartialOK / ValueTable on the emitted
      ones in the quick tier, on all of them in the thorough tier) and prints a stratified sample
@@ -78,6 +80,9 @@ def _records(res, what):
     if envs is None or not recs:
         raise MachineryError(f"{what}: TLC printed no records")
     os.unlink(res.out_path)
+    # TLC's output order depends on worker scheduling: everything downstream (ids, chunking, the whitespace style and
+    # the seeded ragged whitespace a record gets) is derived from a canonical order
+    recs.sort(key=lambda r: json.dumps([r["t"], r.get("toks")], sort_keys=True))
     return envs, recs
 
 
@@ -115,13 +120,13 @@ def _pool(tasks, violations, agg):
             for sig, d in r["viol"].items():
                 _merge(violations, sig, d)
             agg["printed"].extend(r["printed"])
-            if len(agg["samples"]) < 3:
-                agg["samples"].extend(r["samples"][: 3 - len(agg["samples"])])
+            agg["samples"].extend((r.get("chunk", 0), x) for x in r["samples"])
 
 
 def _chunks(recs, envs, n, seed, **kw):
     n = max(1, min(n, len(recs)))
-    return [dict(envs=envs, recs=recs[i::n], seed=seed * 1000 + i, styles=STYLES, **kw) for i in range(n)]
+    return [dict(envs=envs, recs=recs[i::n], seed=seed * 1000 + i, chunk=seed * 1000 + i, styles=STYLES, **kw)
+            for i in range(n)]
 
 
 def run(ctx):
@@ -132,11 +137,12 @@ def run(ctx):
     rem = ctx.seed % 9973
     parts = {}
 
-    # ---- (1)+(2) the four enumerations, side by side (counted in the main thread) -------------------------------
+    # ---- (1)+(2) the five enumerations, side by side (counted in the main thread) -------------------------------
     #   shapes: explicit strings, precedence / associativity lemmas
     #   ops:    all trees of depth <= 2 over the overloaded operators.  LightLemmas stays TRUE here also in the thorough
     #           tier (PartialOK / all print modes on the ~35 000 emitted trees rather than on all 406 125: ~10 ms each)
     #   signs:  the rounding operators with negated leaves (one symbol: negative non-integer operands at depth 2)
+    #   mixed:  floor ceil trunc neg // % over quotients of sign-undetermined differences (depth 3), all emitted
     #   gram:   all trees of depth <= 2 over the operators of the grammar, ** and sqrt included
     light = "FALSE" if thorough else "TRUE"
     big = 3600 if thorough else 900
@@ -149,6 +155,8 @@ def run(ctx):
         signs=dict(cfg=_cfg(ctx.scratch, "SymDimMC_signs.cfg", "signs_v.cfg", PerClass=12 if thorough else 2, SampleRem=rem,
                             ClosedBoost=64 if thorough else 8, LightLemmas=light), workers=max(2, NCPU // 4), timeout=big,
                    what="signs: ValueTable RoundTripTree DesugarOK RoundTripValue PartialOK NormalForm Integral"),
+        mixed=dict(cfg=os.path.join(SYM, "SymDimMC_mixed.cfg"), workers=max(2, NCPU // 4), timeout=big,
+                   what="mixed signs: ValueTable RoundTripTree DesugarOK RoundTripValue PartialOK NormalForm Integral MixedIsMixed"),
         gram=dict(cfg=_cfg(ctx.scratch, "SymDimMC_gram.cfg", "gram_v.cfg", PerClass=12 if thorough else 2, SampleRem=rem,
                            LightLemmas=light), workers=max(2, NCPU // 3), timeout=big,
                   what="grammar trees: ValueTable RoundTripTree RoundTripValue PartialOK NormalForm Integral"),
@@ -168,8 +176,9 @@ def run(ctx):
     envs3, shapes = _records(results["shapes"], "shapes")
     envs2, trees = _records(results["ops"], "ops")
     envs1, strees = _records(results["signs"], "signs")
+    envs2m, mtrees = _records(results["mixed"], "mixed")
     envs2g, gtrees = _records(results["gram"], "gram")
-    if envs2g != envs2:
+    if envs2g != envs2 or envs2m != envs2:
         raise MachineryError("the two enumerations use different binding tables")
 
     # ---- (3) thorough: random trees of depth 3 -------------------------------------------------------------
@@ -194,13 +203,13 @@ def run(ctx):
     # ---- (4) replay into the real library ---------------------------------------------------------------------
     t0 = time.time()
     nid = 0
-    for group in (trees, strees, gtrees, rtrees, shapes):
+    for group in (trees, mtrees, strees, gtrees, rtrees, shapes):
         for r in group:
             r["id"] = nid
             nid += 1
     opts = dict(residual_all=thorough, simplify_timeout=30.0)
     tasks = []
-    tasks += _chunks(trees + rtrees, envs2, NCPU * 6, ctx.seed, operators=True, grammar=True, opts=opts,
+    tasks += _chunks(trees + mtrees + rtrees, envs2, NCPU * 8, ctx.seed, operators=True, grammar=True, opts=opts,
                      all_styles=thorough)
     tasks += _chunks(strees, envs1, NCPU * 2, ctx.seed + 3, operators=True, grammar=True, opts=opts, all_styles=thorough)
     tasks += _chunks(gtrees, envs2, NCPU * 2, ctx.seed + 1, operators=False, grammar=True, all_styles=thorough)
@@ -219,12 +228,12 @@ def run(ctx):
     missing = [k for k in need if not agg["stats"].get(k)]
     if missing:
         raise MachineryError(f"operator/operand-kind combinations never executed: {missing}")
-    if n_trees != len(trees) + len(rtrees) + len(strees):
-        raise MachineryError(f"replayed {n_trees} trees, TLC printed {len(trees) + len(rtrees) + len(strees)}")
+    if n_trees != len(trees) + len(mtrees) + len(rtrees) + len(strees):
+        raise MachineryError(f"replayed {n_trees} trees, TLC printed {len(trees) + len(mtrees) + len(rtrees) + len(strees)}")
 
     # ---- (5) code -> specification: Meaning of the strings the library printed ----------------------------------
     t0 = time.time()
-    by_id = {r["id"]: r for r in trees + rtrees}
+    by_id = {r["id"]: r for r in trees + mtrees + rtrees}
     for r in strees:   # one-symbol value tables, spread over the two-symbol binding table of the text run
         by_id[r["id"]] = dict(r, vals=[r["vals"][envs1.index({k: e[k] for k in envs1[0]})] for e in envs2])
     texts: dict = {}
@@ -308,6 +317,7 @@ def run(ctx):
                  "demand them, the trees are built from the constant dimension SymbolicDim('k') instead")
     if agg["stats"].get("simplify-timeout"):
         ctx.note(f"simplify() exceeded {opts['simplify_timeout']} s on {agg['stats']['simplify-timeout']} trees (skipped)")
+    agg["samples"] = [x for _, x in sorted(agg["samples"], key=lambda p: (p[0], str(p[1])))[:2]]
     ctx.samples = (agg["samples"] + [dict(kind="shape", text="".join(shapes[0]["toks"]),
                                           meaning=sd.tree_str(shapes[0]["t"]))])[:3]
     ctx.extra.update(
@@ -315,8 +325,10 @@ def run(ctx):
                        depth_enumerated=2, depth_random=3 if thorough else None,
                        per_class_ops=20 if thorough else 2, per_class_grammar=12 if thorough else 2, per_class_signs=12 if thorough else 2,
                        sample_rem=rem, shape_strings=len(shapes), shape_symbols=["N", "M", "K"]),
-        trees_enumerated_by_tlc=dict(operators=n_enum_ops, signs=n_enum_signs, grammar=n_enum_gram),
-        trees_replayed=dict(operators=len(trees), signs=len(strees), grammar=len(gtrees), random_depth3=len(rtrees)),
+        trees_enumerated_by_tlc=dict(operators=n_enum_ops, signs=n_enum_signs, grammar=n_enum_gram,
+                                     mixed_signs_depth3=results["mixed"].distinct),
+        trees_replayed=dict(operators=len(trees), signs=len(strees), mixed_signs_depth3=len(mtrees), grammar=len(gtrees),
+                            random_depth3=len(rtrees)),
         texts_parsed_by_real_parser=agg.get("texts", 0),
         evaluations_by_kind=dict(operator_part=agg.get("evals", 0), grammar_part=agg.get("text_evals", 0)),
         bindings_skipped_undefined=agg.get("skipped_undef", 0),
@@ -343,7 +355,8 @@ def run(ctx):
     ctx.assumptions = [
         "small scope: depth <= 2 exhaustive in TLC (2 symbols, constants {1,2,3}; grammar part: constant 2, ** and sqrt "
         "included), stratified sample of it replayed (all trees of depth <= 1, all trees with a unary root, ~PerClass per "
-        "(root, operand operators) class); depth 3 by random generation in the thorough tier",
+        "(root, operand operators) class); depth 3: the mixed-signs family (2 088 trees, all replayed) in both tiers, "
+        "random generation in the thorough tier",
         "positive bindings {1..4}^2 (the parser creates positive integer symbols); bindings with a division by zero are skipped",
         "exact rationals; ** only with integer exponent and within 32-bit range, sqrt only of perfect squares (else skipped)",
         "min/max are built textually (SymbolicDim('max(a, b)')): the class defines no ordering for the builtins",
